@@ -144,7 +144,7 @@ def handler : Handler := fun op inp out =>
                 ("sheets-eq-4-over-curvature-when-no-cone-points",
                   match curvature g, sheets g cg with
                   | some kb, some n =>
-                    !((List.range cg.dim).all fun i => cg.chambers.all fun d => cg.v i d == 1) ||
+                    !(conePoints2d cg).isEmpty ||
                       Q.eq (kb.mulNat n) (Q.ofNat 4)
                   | _, _ => false) ]
              else
@@ -157,12 +157,12 @@ def handler : Handler := fun op inp out =>
     match run P.rawSym inp with
     | some s =>
       let g := specG s
-      match out.toList.map String.toNat? with
-      | [some gens, some rels] =>
+      match run (do let gens ← P.nat; let rels ← P.intss; pure (gens, rels)) out with
+      | some (gens, rels) =>
         ("-", check (baseClauses g ++
-          [ ("fundamental-group-of-universal-cover-has-no-generators", gens == 0),
-            ("fundamental-group-of-universal-cover-has-no-relators", rels == 0) ]))
-      | _ => ("-", fail "no-group-returned")
+          [ ("fundamental-group-of-universal-cover-is-trivial",
+              presentationTrivial gens rels == some true) ]))
+      | none => ("-", fail "no-group-returned")
     | none => bad
   | "selftest" =>
     match run (do let s ← P.rawSym; let j ← P.nat; pure (s, j)) inp with
